@@ -289,9 +289,10 @@ def shards(tier, seed):
                 out.append({"part": "dfs", "config": ci, "bound": 2 if (small and cfg["fault"] is None and not cfg["closer"]) else 1, "deep": False, "max_runs": 1500})
             out.append({"part": "random", "config": ci, "n": _scale(25), "seed": core.derive_seed(seed, "r", ci), "deep": False})
         else:
-            out.append({"part": "dfs", "config": ci, "bound": 3 if (small and cfg["fault"] is None) else 2, "deep": False, "max_runs": 60000})
-            out.append({"part": "dfs", "config": ci, "bound": 1, "deep": True, "max_runs": 20000})
-            out.append({"part": "random", "config": ci, "n": _scale(1500), "seed": core.derive_seed(seed, "r", ci), "deep": True, "opcode": ci % 2 == 0})
+            # (bounded by run counts, sized so that the tier takes well under an hour on 16 cores)
+            out.append({"part": "dfs", "config": ci, "bound": 3 if (small and cfg["fault"] is None) else 2, "deep": False, "max_runs": 30000 if small else 6000})
+            out.append({"part": "dfs", "config": ci, "bound": 1, "deep": True, "max_runs": 5000})
+            out.append({"part": "random", "config": ci, "n": _scale(800), "seed": core.derive_seed(seed, "r", ci), "deep": True, "opcode": ci % 2 == 0})
     return out
 
 
